@@ -218,7 +218,7 @@ def run(ctx):
     run_corpus(ctx)
     run_witnesses(ctx)
     cfg = G.Cfg(p_reject=0.35, p_unsafe=1.0, w_phase=0.05, p_mux=0.3)
-    for _ in range(ctx.n(380, 9000)):
+    for _ in range(ctx.n(380, 6000)):
         r = gen_history(ctx, cfg)
         shape_stats(ctx, r, "main")
         check_history(ctx, r, "main")
